@@ -6,7 +6,7 @@ EXTRA = {"C01-e": ["C02", "C14"], "C03-e": ["C01"], "C13-e": ["C03", "C01"], "C1
          "C01-d": ["C11", "C07"], "C05-d": ["C08", "C09"], "C10-d": ["C04"], "C15-d": ["C19"], "C11-d": ["C09", "C01"], "C12-d": ["C17"], "C07-d": ["C01"],
          "C02-d": ["C01", "C14"], "C14-d": ["C01", "C02"], "C06-d": ["C03"], "C13-d": ["C19"], "C19-d": ["C13", "C04"], "C03-d": ["C06"], "C04-d": ["C10"], "C17-d": ["C05"],
          "C02-c": ["C18"], "C17-c": ["C12"], "C14-c": ["C03"], "C19-c": ["C04"], "C02-b": ["C18"], "C18-a": ["C18"], "C14-a": ["C04"], "C14-b": ["C03", "C14"], "C17-a": ["C05"], "C12-a": ["C12"], "C01-b": ["C02"],
-         "revert-0f7ea01": ["C12"], "revert-ac861da": ["C02"], "revert-016a441": ["C02", "C01"], "revert-2ae8c54": ["C04", "C13"], "revert-e41da29": ["C19"], "revert-a78614b": ["C01", "C03"], "revert-fd379c2": ["C01", "C03"], "revert-10164bf": ["C09"], "revert-80819e0": ["C13"], "revert-8416c89": ["C13"], "revert-2e02a4b": ["C19"], "revert-97e517b": ["C19"],
+         "revert-0f7ea01": ["C12"], "revert-ac861da": ["C02"], "revert-9ad5fb6": ["C02"], "revert-bdfe387": ["C10"], "revert-121c75a": ["C04"], "revert-016a441": ["C02", "C01"], "revert-2ae8c54": ["C04", "C13"], "revert-e41da29": ["C19"], "revert-a78614b": ["C01", "C03"], "revert-fd379c2": ["C01", "C03"], "revert-10164bf": ["C09"], "revert-80819e0": ["C13"], "revert-8416c89": ["C13"], "revert-2e02a4b": ["C19"], "revert-97e517b": ["C19"],
          "revert-8d7f5ba": ["C19"], "revert-5859cef": ["C01", "C20"], "revert-d9cccf5": ["C03", "C20"], "revert-d624b73": ["C06"],
          "revert-95688b3": ["C19"], "revert-7398e39": ["C10"], "revert-697ea65": ["C04", "C19"], "revert-cc8e982": ["C19"]}
 EXTRA.update({"C01-f": ["C03"], "C01-g": ["C06", "C03"], "C05-f": ["C03"], "C05-g": ["C12", "C01"], "C09-f": [], "C14-f": ["C01", "C02"], "C14-g": ["C03", "C16"],
